@@ -804,6 +804,9 @@ class FileReport:  # pylint: disable=too-many-instance-attributes
                 line
                 for reuse_info in reuse_infos
                 for line in reuse_info.copyright_lines
+                # An empty string (SPDX-FileCopyrightText = "" in REUSE.toml)
+                # is not a copyright notice, however many of them there are.
+                if line.strip()
             )
         )
         # Source of licensing and copyright info
